@@ -73,8 +73,15 @@ macro_rules! battery {
                             8 => show_dt(&x.sub_seconds(n)), 9 => show_dt(&x.sub_millis(n)), 10 => show_dt(&x.sub_micros(n)), 11 => show_dt(&x.sub_nanos(n)),
                             12 => show_dt(&x.add_days(n)), 13 => show_dt(&x.sub_days(n)), 14 => show_d(&date(a).add_days(n)), 15 => show_d(&date(a).sub_days(n)),
                             16 => show_dt(&(x + Duration::new(f as u64, (d as u32) % 1_000_000_000))), 17 => show_dt(&(x - Duration::new(f as u64, (d as u32) % 1_000_000_000))),
-                            18 => show_dt(&(x + time(f.rem_euclid(86_400_000_000_000), 0))), _ => show_dt(&(x - time(f.rem_euclid(86_400_000_000_000), 0))),
+                            18 => show_dt(&(x + time(f.rem_euclid(86_400_000_000_000), 0))), _ => show_dt(&(x - time(f.rem_euclid(86_400_000_000_000), cc))),
                         };
+                        let du = Duration::new(f as u64, (d as u32) % 1_000_000_000);
+                        let tm = time(f.rem_euclid(86_400_000_000_000), 0);
+                        let r = format!("{} ; {}", r, match e.rem_euclid(6) {
+                            0 => { let mut y = x; y += du; show_dt(&y) } 1 => { let mut y = x; y -= du; show_dt(&y) }
+                            2 => { let mut y = x; y += tm; show_dt(&y) } 3 => { let mut y = x; y -= tm; show_dt(&y) }
+                            4 => { let mut y = date(a); y += du; show_d(&y) } _ => { let mut y = date(a); y -= du; show_d(&y) }
+                        });
                         let r2 = match e.rem_euclid(2) { 0 => show_d(&(date(a) + Duration::new(f as u64, 5))), _ => show_d(&(date(a) - Duration::new(f as u64, 5))) };
                         format!("{} / {}", r, r2)
                     }
@@ -109,6 +116,9 @@ macro_rules! battery {
                             15 => show_t(&(x - Duration::new(f as u64, n % 1_000_000_000))), 16 => show_t(&Time::from(dt(f.rem_euclid(4_000_000) - 2_000_000, a.rem_euclid(86_400_000_000_000), b))),
                             _ => format!("{} {}", x == y, x.as_hms() == y.as_hms()),
                         };
+                        let r = format!("{} ; {} {} {:?} {}", r, { let mut z = x; z += y; show_t(&z) }, { let mut z = x; z -= Duration::new(f as u64, n % 1_000_000_000); show_t(&z) }, x.as_hms(), x.as_seconds());
+                        let dd = dt(f.rem_euclid(4_000_000) - 2_000_000, a.rem_euclid(86_400_000_000_000), b);
+                        let r = format!("{} ; {} {} {} {}", r, show_t(&Time::from(&dd)), show_dt(&DateTime::from(x)), show_dt(&DateTime::from(&x)), show_d(&Date::from(&dd)));
                         format!("{} | {} {} {}", r, res(Time::from_hms(f as u32, d as u32, cc as u32), show_t), res(Time::from_seconds(f as u32), show_t), res(Time::from_nanos(d as u64), show_t))
                     }
                     "C09" | "C10" | "C15" => {
